@@ -101,7 +101,9 @@ def check_gcdlcm(ctx, xs):
     wg = RN.gcd(*xs)
     pos = all(x > 0 for x in xs)
     wl = RN.lcm(*xs) if pos else None
-    forms = [("varargs", lambda f: f(*xs)), ("list", lambda f: f(list(xs))), ("tuple", lambda f: f(tuple(xs)))]
+    forms = [("varargs", lambda f: f(*xs)), ("list", lambda f: f(list(xs))), ("tuple", lambda f: f(tuple(xs))),
+             ("generator", lambda f: f(x for x in xs)), ("iterator", lambda f: f(iter(list(xs)))),
+             ("dict-keys", lambda f: f(dict.fromkeys(xs).keys()))]
     for fname, call in forms:
         ctx.ev()
         try:
